@@ -57,15 +57,17 @@ def main(pid, argv):
     ck.rule = ("cases: services with 0-6 registered interfaces drawn from a pool of names that are prefixes/suffixes of each other x 5-30 calls per connection "
                "with method strings from a dot-placement grammar (missing/leading/trailing/double dots, near-misses of registered names, case changes, unicode, NUL, "
                "the reserved org.varlink.service namespace) plus frames that are not call-shaped; every registered method replies with its own name, so a reply "
-               "identifies the dispatcher that ran. distinct = distinct case lines; non-trivial = case contains a dispatched call and an error reply")
+               "identifies the dispatcher that ran; plus histories on one Service object in which the same method strings are called before and after "
+               "registrations, listen and shutdown (routing must follow the registry as it is at the call). distinct = distinct case lines; non-trivial = case contains a dispatched call and an error reply")
     ck.assumptions = ["method strings that are not valid UTF-8 are compared with the model only (Go replaces invalid bytes by U+FFFD before routing)"]
     ck.check_obligations()
-    bins = C.build(ck)
+    bins = C.build(ck, ("h_svc", "h_reg"))
     if bins is None:
         return ck.finish()
     rng = ck.rng
     if ck.replay:
-        lines, metas = [json.load(open(ck.replay))["failing"]["case"]], [None]
+        rp0 = json.load(open(ck.replay))["failing"]
+        lines, metas = ([], []) if rp0["kind"] == "reg-routing" else ([rp0["case"]], [None])
     else:
         cs = [gen_case(rng) for _ in range(4000 if ck.tier == "thorough" else 400)]
         lines, metas = [c[0] for c in cs], [c[1] for c in cs]
@@ -97,6 +99,31 @@ def main(pid, argv):
             continue
         if iconns != mconns:
             ck.tie_broken("per-connection bytes / dispatch log differ", line[:1500], il[:600], ml[:600])
+    # routing against a registry that changes: the same method strings before and after registrations / listen / shutdown
+    from props import c13
+    if ck.replay:
+        rp = json.load(open(ck.replay))["failing"]
+        hs = [(rp["case"], None)] if rp["kind"] == "reg-routing" else []
+    else:
+        hs = [c13.gen_history(rng, p_call=0.45) for _ in range(3000 if ck.tier == "thorough" else 300)]
+    hl = [h[0] for h in hs]
+    himpl = C.run_sharded([bins["h_reg"]], hl) if hl else []
+    hmodel = V.run_model_parallel("reg-run", hl) if hl else []
+    for (line, hmeta), il, ml in zip(hs, himpl, hmodel):
+        ck.evaluations += 1
+        bad = None
+        if il.startswith("PANIC") or il.startswith("CRASH"):
+            bad = il[:300]
+        elif hmeta is not None:
+            results = il.split(" ; ")
+            bad = c13.spec(hmeta[0], hmeta[1], results) if len(results) == len(hmeta[1]) else "history has %d operations, %d results" % (len(hmeta[1]), len(results))
+            ck.count("registry-history-calls", sum(1 for o in hmeta[1] if o[0] == "call"))
+            ck.distinct.add(line)
+        if bad:
+            nf += 1
+            ck.fail("reg-routing", line, bad, impl=il[:1500], model=ml[:1500])
+        elif il != ml:
+            ck.tie_broken("registry-history results differ from the model", line[:1200], il[:800], ml[:800])
     ck.extra["failing_inputs_total"] = nf
     for line, il in list(zip(lines, impl))[:: max(1, len(lines) // 4)]:
         ck.sample(dict(case=line[:400], impl=il[:300]))
